@@ -339,7 +339,12 @@ pub fn write_app(spec: &AppSpec, dir: &CaseDir) -> std::io::Result<AppFiles> {
             let mut text = String::from("arrival_heading,departure_heading\n");
             for i in 0..m {
                 let (a, b) = td.headings.get(i).copied().unwrap_or((0, 0));
-                text.push_str(&format!("{},{}\n", a, b));
+                if a == b {
+                    // straight edge: the optional departure heading is left empty
+                    text.push_str(&format!("{},\n", a));
+                } else {
+                    text.push_str(&format!("{},{}\n", a, b));
+                }
             }
             write_text(&hp, &text, false)?;
             let mut table = serde_json::Map::new();
